@@ -530,4 +530,78 @@ theorem C07_repaired_base_rate_commutative :
        && decide (computeBaseRate .wgh false cmL cmR = computeBaseRate .wgh false cmR cmL)) = true := by
   decide +kernel
 
+/-! ### C04 / C05: rounding residue of an exactly-zero belief mass (before / after repair 9ec2d8b)
+
+`deduce_of` and `inverse` build every belief mass as `p - a·u`.  For the coordinate that attains the minimum
+defining `u` the two terms are equal in exact arithmetic; in binary64 the difference is a residue down to about
+-2.5 ε, and `Simplex::normalized` divides it by a sum just below 1.  The checked constructors accept a mass only down
+to -ε, so the result was rejected by the crate's own validators although every operand is exactly well-formed. -/
+
+def s2 (a b u : Float) : Simplex Float 2 := ⟨#v[a, b], u⟩
+def s3' (a b c u : Float) : Simplex Float 3 := ⟨#v[a, b, c], u⟩
+
+/-- antecedent `x = ([0, 1/4, 0], u = 3/4, a = [1/2, 0, 1/2])` -/
+def rzX : Opinion Float 3 := ⟨#v[0.0, 0.25, 0.0], 0.75, #v[0.5, 0.0, 0.5]⟩
+/-- conditionals `[([1/2, 0], 1/2), ([0, 1/2], 1/2), ([0, 1/4], 3/4)]` -/
+def rzC : CondTab Float 3 2 := #v[s2 0.5 0.0 0.5, s2 0.0 0.5 0.5, s2 0.0 0.25 0.75]
+
+/-- the operands are exactly well-formed (every sum is exact in binary64) and accepted by the checked constructors -/
+theorem C04_residue_operands_exactly_wf :
+    (decide (rzX.b[0] + rzX.b[1] + rzX.b[2] + rzX.u = 1.0) && decide (rzX.a[0] + rzX.a[1] + rzX.a[2] = 1.0)
+      && (match Opinion.tryNew rzX.b rzX.u rzX.a with | .ok _ => true | .error _ => false)
+      && rzC.toList.all (fun c => decide (c.b[0] + c.b[1] + c.u = 1.0)
+            && (match Simplex.tryNew c.b c.u with | .ok _ => true | .error _ => false))) = true := by
+  decide +kernel
+
+/-- C04 (before 9ec2d8b, binary64): `deduce` (base rate on `Y` = the marginal base rate `[2/3, 1/3]`) returns
+    `b[0] = -2.2204460492503136e-16` (bits 0xBCB0000000000001, just below -ε), `b[1] = 1/8`-ish, and
+    `Opinion::try_new` rejects the result with the belief-mass error. -/
+theorem C04_pinned_deduce_negative_mass :
+    (match mbr rzX.a rzC with
+      | none => false
+      | some ay =>
+        let w := Pinned.deduceOfNoClamp rzX rzC ay
+        decide (Float.toBits w.b[0] = 0xBCB0000000000001) && decide (w.b[0] < -feps)
+          && !(Scalar.isZero w.b[0]) && isErr (Opinion.tryNew w.b w.u w.a) .b) = true := by
+  decide +kernel
+
+/-- C04 (repaired model, binary64): the same input gives `b[0] = 0` exactly, and the checked constructor accepts the
+    result. -/
+theorem C04_repaired_deduce_nonneg :
+    (match deduce rzX rzC with
+      | none => false
+      | some w =>
+        decide (Float.toBits w.b[0] = 0) && decide (w.b[1] ≥ 0.0) && decide (w.u ≥ 0.0)
+          && (match Opinion.tryNew w.b w.u w.a with | .ok _ => true | .error _ => false)) = true := by
+  decide +kernel
+
+/-- observation `y = ([1/4, 0, 1/4], u = 1/2)` -/
+def rzY : Simplex Float 3 := s3' 0.25 0.0 0.25 0.5
+/-- conditionals `Y|X = [([0, 1/4, 1/4], 1/2), ([0, 1/4, 1/2], 1/4)]`, base rate `a_X = [3/4, 1/4]` -/
+def rzCY : CondTab Float 2 3 := #v[s3' 0.0 0.25 0.25 0.5, s3' 0.0 0.25 0.5 0.25]
+def rzAX : Tab Float 2 := #v[0.75, 0.25]
+
+/-- C05 (before 9ec2d8b, binary64): `abduce` of exactly well-formed operands returns `b[0] = -2.2204460492503136e-16`
+    (bits 0xBCB0000000000001), rejected by `Opinion::try_new`.  (Here the three inverted conditionals are still
+    accepted; the residue arises in the `deduce_of` step of the abduction.) -/
+theorem C05_pinned_abduce_negative_mass :
+    (match mbr rzAX rzCY with
+      | none => false
+      | some ay =>
+        let w := Pinned.abduceWithNoClamp rzY rzCY rzAX ay
+        decide (Float.toBits w.b[0] = 0xBCB0000000000001) && decide (w.b[0] < -feps)
+          && (Pinned.inverseNoClamp rzCY rzAX ay).toList.all
+               (fun c => match Simplex.tryNew c.b c.u with | .ok _ => true | .error _ => false)
+          && isErr (Opinion.tryNew w.b w.u w.a) .b) = true := by
+  decide +kernel
+
+/-- C05 (repaired model, binary64): the same input gives `b[0] = 0` exactly; accepted. -/
+theorem C05_repaired_abduce_nonneg :
+    (match abduce rzY rzCY rzAX with
+      | none => false
+      | some w =>
+        decide (Float.toBits w.b[0] = 0) && decide (w.b[1] ≥ 0.0) && decide (w.u ≥ 0.0)
+          && (match Opinion.tryNew w.b w.u w.a with | .ok _ => true | .error _ => false)) = true := by
+  decide +kernel
+
 end SLV.Props.Pinned
